@@ -413,6 +413,16 @@ class Ctx:
         for n in ne:
             ne_names.add(str(n))
             ne_names.add(str(-n))
+        # integers: p != 0 together with p >= 0 (p <= 0) is p >= 1 (p <= -1)
+        for n in ne:
+            try:
+                pr_n = Prover(list(ge), self.box(list(ge) + [n]))
+                if pr_n.prove_ge0(n)[0]:
+                    add(n - Poly.const(1))
+                elif pr_n.prove_ge0(-n)[0]:
+                    add(-n - Poly.const(1))
+            except Exception:
+                pass
         # casts whose operand is bounded by the guards on this path are the identity
         for name in sorted(syms):
             if name.startswith("cast<") and name in getattr(sy, "casts", {}):
@@ -462,6 +472,15 @@ class Ctx:
                 add(f_)
             if note:
                 self.used_audited.setdefault("table-values", set()).add(note)
+            m = re.match(r"^<impl u(\d+)>::trailing_zeros\((.*)\)$", name)
+            if m:
+                # a non-zero x <= 2^b - 1 has its lowest set bit below b
+                inner = m.group(2)
+                if inner in ne_names:
+                    pr0 = Prover(list(ge) + out, self.box(list(ge) + out + [Poly.sym(inner)]) if inner in sy.sym_box else {})
+                    ilo, ihi = pr0.box.get(inner, sy.sym_box.get(inner, (None, None)))
+                    b = int(m.group(1)) if ihi is None or ihi < 0 else int(ihi).bit_length()
+                    add(Poly.const(b - 1) - Poly.sym(name))
             m = re.match(r"^<impl u(\d+)>::leading_zeros\((.*)\)$", name)
             if m:
                 inner = m.group(2)
@@ -574,7 +593,8 @@ class Ctx:
                     # the loop only clears set bits: the value never exceeds its initial value
                     add(init - Poly.sym(name))
                     add(Poly.sym(name))
-            m = re.match(r"^len\(vec\[push -<impl u(\d+)>::leading_zeros\((loop\(.*\))\) \+ (\d+)\]\)$", name)
+            m = re.match(r"^len\(vec\[push -<impl u(\d+)>::leading_zeros\((loop\(.*\))\) \+ (\d+)\]\)$", name) or \
+                re.match(r"^len\(vec\[push <impl u(\d+)>::trailing_zeros\((loop\(.*\))\)\]\)$", name)
             if m and self.clears_top_bit_loop(m.group(2), need_single_push=True):
                 # one push per iteration, each iteration clears one set bit: at most bit_length(initial) pushes
                 pr0 = Prover(list(ge) + out, self.box(list(ge) + out + [Poly.sym(m.group(2))]))
@@ -699,11 +719,19 @@ class Ctx:
         loops = [(tl, hd, body.natural_loop(tl, hd)) for (tl, hd) in body.back_edges()]
         upd = [d for d in defs if any(d[0] in lp for _, _, lp in loops)]
         init = [d for d in defs if d not in upd]
-        if len(upd) != 1 or len(init) != 1 or upd[0][1] == "t":
+        if len(upd) != 1 or upd[0][1] == "t":
+            return False
+        if len(init) != 1 and not (len(init) == 0 and 1 <= l <= body.argc):      # a `mut` parameter starts with its argument
             return False
         u = strip(tm.rvalue(upd[0][2]))
-        ok = (u[0] == "bin" and u[1] == "BitXor" and is_var(strip(u[2]), l))
-        if ok:
+        # the sibling shape `x &= x - 1` clears the lowest set bit (same premises, same consequences)
+        low = False
+        if u[0] == "bin" and u[1] == "BitAnd":
+            for a_, b_ in ((strip(u[2]), strip(u[3])), (strip(u[3]), strip(u[2]))):
+                if is_var(a_, l) and b_[0] == "bin" and b_[1] == "Sub" and is_var(strip(b_[2]), l) and strip(b_[3])[0] == "const" and strip(b_[3])[1] == 1:
+                    low = True
+        ok = low or (u[0] == "bin" and u[1] == "BitXor" and is_var(strip(u[2]), l))
+        if ok and not low:
             sh = strip(u[3])
             ok = sh[0] == "bin" and sh[1] == "Shl" and strip(sh[2])[0] == "const" and strip(sh[2])[1] == 1
             if ok:
